@@ -160,7 +160,7 @@ func (f *Fed) Mono(query, op string, vars map[string]interface{}) (map[string]in
 	if o.Operation == ast.Mutation {
 		rt = "Mutation"
 	}
-	it := &interp{schema: f.Cap.Schema, store: f.Store, doc: doc, vars: vars}
+	it := &interp{schema: f.Cap.Schema, store: f.Store, doc: doc, vars: withDefaults(o, vars)}
 	return it.exec(o.SelectionSet, nil, rt), nil
 }
 
